@@ -474,7 +474,8 @@ Open Scope Z_scope.
 """
 
 
-def run_systems(ctx, systems, batch=4):
+def run_systems(ctx, systems, batch=4, spec=False):
+    sfx = "_spec" if spec else ""
     payload = {"repo": common.REPO, "tmp": ctx.tmp, "shim": SHIM, "G": G,
                "systems": [{k: s[k] for k in ("residues", "bonds", "frames", "oob", "calls")} for s in systems]}
     res = ctx.run_impl("hbond_impl.py", payload)["systems"]
@@ -514,6 +515,13 @@ def run_systems(ctx, systems, batch=4):
                     n = len(s["residues"])
                     for fi, fr in enumerate(r["frames"]):
                         rows = [[] for _ in range(n)]
+                        weird = [b for b in fr["bonds"] if not (0 <= b[0] < n and 0 <= b[1] < n) or b[2] != b[2]
+                                 or abs(b[2]) > 1e6]
+                        if weird:
+                            ctx.fail("md.kabsch_sander reports a bond with an out-of-range residue or a non-finite energy",
+                                     case_of(s, ci), observed={"frame": fi, "bonds": [[b[0], b[1], str(b[2])] for b in weird[:5]]},
+                                     expected="residue indices in range, finite energies", tags={"fn": "kabsch_sander", "kind": "garbage"})
+                            continue
                         for d, a, e in fr["bonds"]:
                             rows[d].append((a, e))
                         exp = clist([clist(["(%s, %s)" % (cnat(a), cz(int(round(Fraction(e) * (1 << 32))))) for a, e in sorted(row)])
@@ -527,9 +535,9 @@ def run_systems(ctx, systems, batch=4):
         text = HEADER + "\n".join(prelude) + "\n"
         blocks = {}
         for tag, jobs, ty_in, ty_out, fn, chk, cnt in (
-                ("BH", bh, BH_TY, "result (list triplet)", "run_bh", "check_bh", "bh_unc"),
-                ("WN", wn, WN_TY, "result (list (list triplet))", "run_wn", "check_wn", "wn_unc"),
-                ("KS", ks, KS_TY, "list (list (nat * Z))", "run_ks_t", "check_ks_t", "ks_unc")):
+                ("BH", bh, BH_TY, "result (list triplet)", "run_bh" + sfx, "check_bh", "bh_unc"),
+                ("WN", wn, WN_TY, "result (list (list triplet))", "run_wn" + sfx, "check_wn", "wn_unc"),
+                ("KS", ks, KS_TY, "list (list (nat * Z))", "run_ks_t" + sfx, "check_ks_t", "ks_unc")):
             good = [(k, i, e, r) for k, i, e, r in jobs if i is not None and e is not None]
             blocks[tag] = (jobs, good)
             if good:
@@ -686,7 +694,9 @@ def correspond(ctx):
 
 
 def search(ctx, broken):
-    run_systems(ctx, build_systems(ctx, 40))
+    # After a break the oracle is the model with the DOCUMENTED constants (doc_consts): a changed constant in the
+    # source, which the regenerated model follows, then shows up as a failing input.
+    run_systems(ctx, build_systems(ctx, 40), spec=True)
 
 
 def replay(ctx, rec):
